@@ -7,7 +7,9 @@ def run(run):
     run.rule = ("(a) free-running: 2-16 worker processes released by a barrier with randomised start offsets and page orders (templates "
                 "and #invoke) on one database file, with/without a backup file and with/without the sandbox bootstrap page; "
                 "(b) single-preemption schedules: one worker is paused at each executed line of create_db/init_wikidata_cache/"
-                "initialize_lua/add_empty_sandbox_lua_module while another worker runs to completion, then resumed; non-trivial "
+                "initialize_lua/add_empty_sandbox_lua_module while another worker runs to completion, then resumed; (c) workers that "
+                "keep a get_all_pages() read cursor open while expanding (free-running and staged: a second context opens between "
+                "a worker's first Lua-free page and its first #invoke); non-trivial "
                 "= at least two workers with overlapping start-up; distinct by JSON hash")
     run.trusted = [
         "Coq 8.16.1 kernel; the no-backup theorem holds for every schedule and number of workers by induction over the schedule",
@@ -26,6 +28,19 @@ def run(run):
                     cases.append({"backup": backup, "bootstrap": bootstrap, "kind": "free",
                                   "workers": [{"pages": [rng.randrange(6) for _ in range(rng.randint(1, 4))],
                                                "delay": rng.choice([0, 0, 0.001, 0.005, 0.02])} for _ in range(nw)]})
+    # workers that process pages inside a "for page in ctx.get_all_pages()" loop (a read cursor stays open): free-running, and
+    # staged so that another context is opened between a worker's first (Lua-free) page and its first Lua use
+    for backup in (False, True):
+        for bootstrap in (False, True):
+            for _ in range(2 if quick else 10):
+                nw = rng.choice([2, 3, 4])
+                cases.append({"backup": backup, "bootstrap": bootstrap, "kind": "free-iterating",
+                              "workers": [{"pages": [rng.randrange(6) for _ in range(rng.randint(2, 4))], "iterate": rng.random() < 0.7,
+                                           "delay": rng.choice([0, 0.001, 0.02, 0.1])} for _ in range(nw)]})
+            for other in ([0], [1], [0, 1]):
+                cases.append({"backup": backup, "bootstrap": bootstrap, "kind": "staged-iterating",
+                              "workers": [{"pages": [0, 1, 4], "iterate": True, "gate": {"page": 1}},
+                                          {"pages": other, "iterate": rng.random() < 0.5}]})
     # gated: discover the number of start-up line events with a counting run
     probe = lib.run_impl("c20", [{"backup": False, "bootstrap": False, "kind": "probe",
                                   "workers": [{"pages": [1], "count_lines": True}]}], shards=1)[0]
@@ -55,7 +70,13 @@ def run(run):
             run.property_failure("c20:%s:%s:harness:%s" % (c["kind"], cfg, r.get("outcome")), "trial failed: %r" % (r,), c)
             continue
         for w, wr in enumerate(r["results"]):
-            if wr["error"]:
+            if wr["error"] and not c["bootstrap"] and any(x.get("iterate") for x in c["workers"]) \
+                    and wr["error"][0] == "OperationalError" and wr["error"][2] == "add_page" and c["workers"][w].get("iterate") \
+                    and any(any(pg % 6 in (1, 4) for pg in x["pages"]) for j, x in enumerate(c["workers"]) if j != w):
+                # (only when another worker used Lua, i.e. wrote the bootstrap page: merely opening a context writes nothing)
+                run.property_failure("c20:bootstrap-absent:reader-with-open-cursor-cannot-write-bootstrap",
+                                     "worker %d raised %r" % (w, wr["error"]), c)
+            elif wr["error"]:
                 run.property_failure("c20:%s:%s:worker-raised:%s:%s" % (c["kind"], cfg, wr["error"][0], wr["error"][2]),
                                      "worker %d raised %r" % (w, wr["error"]), c)
             elif wr["outs"] != wr["want"]:
